@@ -49,7 +49,12 @@ def body(c):
     with open(cpath, "w") as f:
         for x in cases:
             f.write(json.dumps(x) + "\n")
-    _, out = c.vh(["c02", "replay", cpath], timeout=3000)
+    # (a decoder that makes the process die -- an allocation the machine cannot satisfy, a stack overflow -- instead of
+    #  returning is an outcome of the property; the run then ends with that violation)
+    out = c.vh_abortable(["c02", "replay", cpath], "c02:abort", "decoding the specification's inputs", timeout=3000)
+    if out is None:
+        c.finish_kw = dict(exhaustive=False, rule="the decoders killed the process on one of the specification's inputs; the run ended there")
+        return
     got = [json.loads(l)["got"] for l in out.split("\n") if l.strip()]
     if len(got) != len(cases):
         raise ToolError("replay returned %d results for %d cases" % (len(got), len(cases)))
@@ -76,7 +81,9 @@ def body(c):
     # impl -> spec: random strings and mutations of valid encodings
     runs = 3000 if q else 60000
     tpath = os.path.join(c.work, "trace.ndjson")
-    c.vh(["c02", "record", runs, tpath], timeout=3000)
+    if c.vh_abortable(["c02", "record", runs, tpath], "c02:abort", "decoding random and mutated strings", timeout=3000) is None:
+        c.finish_kw = dict(exhaustive=False, rule="the decoders killed the process on a random or mutated input; the run ended there")
+        return
     def describe(ev):
         if "got" in ev:
             v = judge(None, ev["got"], len(ev["pb"]) // 8 + len(ev["wb"]) // 8)
@@ -116,6 +123,29 @@ def body(c):
                         os.path.getsize(dp), shape, depth, place, pr.returncode, ", stack overflow" if overflow else ""),
                         {"shape": shape, "depth": depth, "place": place, "stderr": pr.stderr.decode(errors="replace")[-300:]})
     c.extra["deep_inputs"] = deep
+    # ---- totality on length prefixes that announce far more nodes than the input can hold: one decode per process (an
+    # allocation the machine cannot satisfy kills the process), peak allocation within the same bound as everywhere else
+    announced = {}
+    for hexs in ("f0000000", "f080000000", "f0f000000000", "f0ffffffffe0", "f0ffffffffe0" + "24" * 40, "efffffff", "f7ffffffffffffff"):
+        bp = os.path.join(c.work, "announced.bin")
+        open(bp, "wb").write(bytes.fromhex(hexs))
+        c.evaluations += 1
+        try:
+            pr = subprocess.run([VH, "c20", "deepdec", bp, "main"], stdout=subprocess.PIPE, stderr=subprocess.PIPE, timeout=300)
+        except subprocess.TimeoutExpired:
+            c.report("c02:announced-length", "decoding %s did not finish in 300 s" % hexs, {"hex": hexs})
+            continue
+        if pr.returncode != 0:
+            announced[hexs] = "abort"
+            c.report("c02:announced-length", "decoding the %d bytes %s killed the process (exit %d): %s" % (len(hexs) // 2, hexs, pr.returncode, pr.stderr.decode(errors="replace")[-200:].strip()), {"hex": hexs})
+            continue
+        res = json.loads(pr.stdout.decode())
+        announced[hexs] = "%s peak=%d" % (res["class"], res["peak"])
+        if res["peak"] > ALLOC_C0 + ALLOC_K * (len(hexs) // 2):
+            c.report("c02:announced-length", "decoding the %d bytes %s allocated %d bytes" % (len(hexs) // 2, hexs, res["peak"]), {"hex": hexs, "peak": res["peak"]})
+        else:
+            c.traces += 1
+    c.extra["announced_lengths"] = announced
     c.assumptions += ["allocation bound %d + %d per input byte (fixed 32 MiB initial cap of from_padded_bits included)" % (ALLOC_C0, ALLOC_K),
                       "time bound %d ms per call in a debug build" % MS_MAX,
                       "spec verdicts exist for the jet-free fragment; inputs containing jets are judged by the property's clauses only"]
